@@ -70,6 +70,15 @@ func (p *Params) Verify(input VerifierInput) error {
 		if err := proof.MerkleProofOpenedColumns[i].Verify(c, leaf, root); err != nil {
 			return fmt.Errorf("invalid proof: merkle proof verification failed: %w", err)
 		}
+
+		// This checks the consistency between the opened column and the linear
+		// combination: UAlpha[c] = \sum_j column[j] * alpha^j
+		if c < 0 || c >= len(proof.UAlpha) {
+			return errors.New("invalid proof: selected column out of range")
+		}
+		if EvalBasePolyHorner(proof.OpenedColumns[i], input.Alpha) != proof.UAlpha[c] {
+			return errors.New("invalid proof: the opened column is not consistent with uAlpha")
+		}
 	}
 
 	return nil
